@@ -22,7 +22,7 @@ PROP_MODULES = ["ArmiVerif.Props.C06"]
 PARTIAL = ("PROVED on the model: write_refuses_overwrite, write_then_load, write_isolated(_seq), listing_exact, "
            "listing_sorted_by_name, name_order_iff / name_le_imp / name_injective / parse_name for all c,n<100 (decided "
            "counter-example at 100), listing_sorted (genTimeSteps = written steps in chronological order), name_fresh, "
-           "history_spec + history_live, merge_exact (start step present; F13 witness proved without it), split_exact, "
+           "history_spec + history_live, merge_exact (start step present or absent), split_exact (attribute renumbered too), "
            "db_between, crash_file_spec (no freshness hypothesis), crash_before_open, complete_run_spec. "
            "CORRESPONDENCE ONLY: that getHistories reports steps in first-occurrence order (order of the returned dict), "
            "the content of a refused split/merge, which interface opens the database (parameter `opener`). "
@@ -161,7 +161,7 @@ class RealHistory:
                     return e
                 exp = expect(lambda v: (v["c"], v["n"]))
                 if dict(got) != exp:
-                    stale = expect(lambda v: (v["ac"], v["an"]))
+                    stale = expect(lambda v: (v.get("oc", v["ac"]), v["an"]))   # keyed by the cycle before a split
                     key = ("history-after-split-keyed-by-old-cycle" if dict(got) == stale else "history-value-per-step")
                     ctx.fail(key, "a history returns for each (listed) step the value the object had at that step",
                              {"ops": self.trace}, observed=got, expected=sorted(exp.items()))
@@ -213,7 +213,7 @@ class RealHistory:
                 new = {}
                 for c, n in keep:
                     v = dict(self.shadow[gname(c, n)])
-                    v.update(c=c - mn, label="")
+                    v.update(c=c - mn, ac=c - mn, oc=v["ac"], label="")
                     new[gname(c - mn, n)] = v
                 self.shadow = new
                 want = "[" + ",".join(self._line(nm) for nm in sorted(new)) + "]"
@@ -278,14 +278,14 @@ def op_request(op):
 
 
 FIXED = [
-    # F13: stop step absent from the source, later steps present
+    # (former F13, repaired) stop step absent from the source, later steps present: only the earlier steps are copied
     [("open",), ("set", 0, 0, 1, 1), ("write", ""), ("set", 0, 2, 2, 2), ("write", ""), ("set", 1, 0, 3, 3), ("write", ""),
      ("merge", 0, 1), ("merge", 0, 2), ("merge", 1, 0), ("merge", 2, 0), ("steps",), ("close", True), ("file",)],
     # F14: labelled snapshot of the same node written after a further change
     [("open",), ("set", 0, 0, 1, 1), ("write", ""), ("set", 0, 1, 2, 2), ("write", ""), ("set", 0, 1, 5, 6), ("write", "EOL"),
      ("history", BLOCK), ("history", CORE), ("load", 0, 1, ""), ("load", 0, 1, "EOL"), ("steps",), ("split", [[0, 1]]),
      ("file",), ("close", False), ("file",)],
-    # split renumbers cycles in the names and in Reactor/cycle but not in the group attributes
+    # (repaired) split renumbers cycles in the names, in Reactor/cycle and in the group attributes: histories keyed by listed steps
     [("open",), ("set", 1, 0, 1, 1), ("write", ""), ("set", 1, 1, 2, 2), ("write", ""), ("set", 2, 0, 3, 3), ("write", ""),
      ("split", [[1, 0], [1, 1]]), ("steps",), ("load", 0, 1, ""), ("history", BLOCK), ("history", CORE), ("close", True), ("file",)],
     # a refused split (step not present) has already moved the file away
